@@ -655,7 +655,9 @@ impl G {
                 // alone, three of them in one set exceed the regex crate's default size limit - whatever
                 // builds the set (the list at load, shake for or-ed identifiers) must not panic
                 let mut n = n;
+                let mut big = false;
                 if self.r.chance(1, 6) {
+                    big = true;
                     vs.clear();
                     n = 3;
                     for l in ['a', 'b', 'c'] {
@@ -666,7 +668,9 @@ impl G {
                 }
                 let hay = ["a", "xa", "b..", "b", "xab", "Ay", "q", "ba", "q\na", "b\nq", "q\nb\nq"];
                 self.own_docs = Some((0..5).map(|_| obj(vec![("f".into(), s_node(*self.r.pick(&hay)))])).collect());
-                if self.r.chance(1, 2) {
+                // (as ONE list the big regexes are rejected at load - a set that cannot be built is an error -
+                // so they only come as separate identifiers)
+                if !big && self.r.chance(1, 2) {
                     json!({"cond":{"t":"id","n":cps("A")},"ids":[[cps("A"),{"t":"map","es":[ent("none", "f", json!({"t":"list","vs":vs}))]}]]})
                 } else {
                     // the same regexes as lone predicates under or-ed identifiers (shake merges them)
